@@ -20,3 +20,42 @@ package ro
 
 //@ site SampleWhen
 //@   assume-ctx-set next@tick : `last` is read only when hasValue is set, and both are written together under mu by the source callback
+
+// ---- declared hand-off sites (C08): the only places where a notification changes goroutine ----
+
+//@ site Delay
+//@   handoff : notifications are queued and re-emitted from time.AfterFunc callbacks
+//@   assume-released AfterFunc : a one-shot time.AfterFunc whose callback finds an empty queue once the teardown has run
+
+//@ site Timeout
+//@   handoff : the timeout error is raised from a time.AfterFunc callback
+
+//@ site FromChannel
+//@   handoff : values are read from the channel by a library goroutine
+
+//@ site Future
+//@   handoff : the factory runs in a library goroutine
+
+//@ site Interval
+//@   handoff : ticks are emitted by a library goroutine
+
+//@ site IntervalWithInitial
+//@   handoff : ticks are emitted by a library goroutine
+
+//@ site ThrowOnContextCancel
+//@   handoff : the cancellation error is raised by a library goroutine watching the context
+
+//@ site ToChannel
+//@   handoff : the source is subscribed from a library goroutine and its notifications travel through the channel
+
+//@ site detachOn
+//@   handoff : ObserveOn / SubscribeOn move one side of the pipeline to a goroutine through a bounded channel
+
+//@ site Timer
+//@   assume-released NewTimer : a one-shot timer without callback; it expires by itself and holds no goroutine
+
+// ---- declared hot constructs (C12): sharing state between subscribers is their purpose ----
+
+//@ site ShareWithConfig
+//@   hot : Share keeps one upstream subscription, a subject and a reference count shared by all subscribers (verified by the C11 contracts)
+//@   assume-released source : the upstream subscription of Share is released by the reference count / reset logic (C11 contracts), not by each subscriber's teardown
